@@ -27,7 +27,7 @@ def keyfn(kind, run, det):
         src = (case.get("nodes") or [{}])[0].get("size")
         return "overwrite-existing-src%s-old%s-p%s" % (src, pre, case["opts"]["protocol"])
     if case.get("id", 0) >= 900000:
-        return "nofile-" + ("upload" if case["opts"]["upload"] else "download") + ("-dir" if case["opts"]["directory"] else "")
+        return "nofile-" + ("upload" if case["opts"]["upload"] else "download") + ("-dir" if case["opts"]["directory"] else "") + ("" if case["opts"].get("overwrite") else "-archive-empty-entries")
     return "obs-" + kind
 
 
